@@ -101,7 +101,9 @@ impl Comms {
                 // There's not much we can do about an error here, other than log it, which send_command already does, so we ignore any error.
                 let _ = self.send_command(Command::Shutdown);
                 // Join threads so that they're properly cleaned up including the profiling data
-                if let Comms::Local { thread, .. } = self { // Always true, just need to extract the fields
+                if let Comms::Local { thread, receiver, .. } = self { // Always true, just need to extract the fields
+                    // Stop listening first, otherwise a doer that is waiting for space to send us a response would never finish
+                    drop(receiver);
                     if let Err(e) = thread.join().expect("Failed to join local doer thread") {
                         error!("Local doer thread exited with error: {e}");
                     }
